@@ -126,12 +126,7 @@ theorem weekLoop_spec (f : YearFacts r y info) (wkst : Int) (hw : 0 ≤ wkst ∧
     (hws : weekdayOfOrd (info.yearordinal + (no1wkst - back)) = wkst)
     (hfit : no1wkst - back + 7 * numweeks ≤ info.yearlen + 3) :
     ∀ (bw : List Int) (mask : List Int), (mask.length : Int) = info.yearlen + 7 →
-    ∃ mask', bw.foldlM (fun mask n0 =>
-        let n := if n0 < 0 then n0 + numweeks + 1 else n0
-        if ¬ (0 < n ∧ n ≤ numweeks) then (pure mask : Py.R (List Int))
-        else
-          let i := if n > 1 then no1wkst + (n - 1) * 7 - back else no1wkst
-          markWeek info.wdaymask wkst 7 mask i) mask = .ok mask' ∧
+    ∃ mask', bw.foldlM (wnoStep info.wdaymask wkst no1wkst numweeks back) mask = .ok mask' ∧
       mask'.length = mask.length ∧
       ∀ j : Int, 0 ≤ j → j < info.yearlen + 7 →
         Py.getIdx mask' j =
@@ -146,14 +141,11 @@ theorem weekLoop_spec (f : YearFacts r y info) (wkst : Int) (hw : 0 ≤ wkst ∧
     intro mask hlen
     rw [List.foldlM_cons]
     -- one step
-    have hstep : ∃ m1, (let n := if n0 < 0 then n0 + numweeks + 1 else n0
-        if ¬ (0 < n ∧ n ≤ numweeks) then (pure mask : Py.R (List Int))
-        else
-          let i := if n > 1 then no1wkst + (n - 1) * 7 - back else no1wkst
-          markWeek info.wdaymask wkst 7 mask i) = .ok m1 ∧ m1.length = mask.length ∧
+    have hstep : ∃ m1, wnoStep info.wdaymask wkst no1wkst numweeks back mask n0 = .ok m1 ∧ m1.length = mask.length ∧
         ∀ j : Int, 0 ≤ j → j < info.yearlen + 7 →
           Py.getIdx m1 j = (if 0 < normWeek numweeks n0 ∧ normWeek numweeks n0 ≤ numweeks ∧
               inWeek (no1wkst - back) (normWeek numweeks n0) j then .ok 1 else Py.getIdx mask j) := by
+      unfold wnoStep
       dsimp only
       have hnorm : (if n0 < 0 then n0 + numweeks + 1 else n0) = normWeek numweeks n0 := rfl
       rw [hnorm]
